@@ -121,6 +121,11 @@ func (ts *TS) runFn(fr *Frame, initA string, env Env, trail []string) []TSOut {
 			ts.Truncated = append(ts.Truncated, "state budget exceeded in "+fname(fn))
 			break
 		}
+		if len(it.a) > 2500 {
+			// an automaton word that keeps growing means the rule's loop summarisation does not apply to this shape
+			ts.Truncated = append(ts.Truncated, "automaton word grows without bound in "+fname(fn)+": "+it.a[:300])
+			break
+		}
 		// phis
 		env2 := it.env.clone()
 		if it.pred != nil {
